@@ -1,134 +1,36 @@
 """C04 (sessions of one long-lived `Repository` object): does the chunk digest comparison DOMINATE the write?
 
-`14_format.py` establishes that `restore._download_chunk` contains a guard `if hash_digest(<what is written>) != <expected
-digest>: raise`.  That is enough for a process that runs one command and exits, but not for an object that lives on: a guard that
-sits under a condition (`if digest in self._seen: … else: <guard>`, an early `continue`, a loop that may run zero times, an
-exception handler that goes on) can be bypassed by whatever the object remembers from its earlier commands.
+`14_format.py::chunkDigestVerified` says that the chunk loader of `restore` HAS a path on which the bytes it hands on were compared
+(`HASH(bytes) == <the digest the download location was derived from>`) before.  That is enough for a process that runs one command
+and exits, but not for an object that lives on: a guard that sits under a condition (`if digest in self._seen: … else: <guard>`, an
+early `continue`, an exception handler that goes on) can be bypassed by whatever the object remembers from its earlier commands.
 
-`Gen.chunkDigestCheckDominates = true` iff on EVERY control-flow path through `_download_chunk` that reaches a hand-over of chunk
-bytes to the writers (`<executor>.submit(…)` / `_write_chunk_ref(…)`) a digest guard has been executed before.  Structural
-(AST) analysis, independent of names, comments and of how the guard is wrapped in `with` / `try` blocks; an `if` guarantees the
-check only when both of its branches do.  `ReplicatModel/SymSession.lean` is parameterised by the flag and
-`Properties/C04.lean::session_is_stateless` / `session_restore_ok_implies_identical` discharge it by `decide`.
+`Gen.chunkDigestCheckDominates = true` iff on EVERY control-flow path of the chunk loader EVERY hand-over of downloaded bytes (a call
+outside logging / len / the crypto primitives that receives a view / slice / decryption of what was downloaded, a store into an
+attribute or a container, the return value) is preceded by the comparison of the digest of THOSE bytes with the expected digest
+(tools/replicat_facts.py::chunk_loader on the paths of tools/symflow.py).  The loader is found by what it does (it calls
+`backend.download_stream`), helpers are inlined, so extracting the decrypt-and-verify block into a method, renaming, reordering
+independent statements or rewriting the conditionals does not change the answer; a path that reaches the writers unverified does.
+`ReplicatModel/SymSession.lean` is parameterised by the flag and `Properties/C04.lean::session_is_stateless` /
+`session_restore_ok_implies_identical` discharge it by `decide`.
 """
-import ast
+import sys
+from pathlib import Path
 
-
-def _hash_arg(node):
-    if isinstance(node, ast.Call) and ast.unparse(node.func).endswith('.hash_digest') and len(node.args) == 1 and not node.keywords:
-        return ast.unparse(node.args[0])
-    return None
-
-
-def _ends_in_raise(body):
-    return bool(body) and isinstance(body[-1], ast.Raise)
-
-
-HASHED = set()     # names assigned `<name> = <x>.hash_digest(<y>)` inside the function under analysis
-
-
-def _is_guard(st, dname):
-    """`if <x>.hash_digest(<y>) != <expected digest>: … raise` (also `if not … == …`, also through `h = <x>.hash_digest(<y>)`), a
-    single condition"""
-    if not isinstance(st, ast.If):
-        return False
-    t = st.test
-    neg = False
-    if isinstance(t, ast.UnaryOp) and isinstance(t.op, ast.Not):
-        t, neg = t.operand, True
-    if not (isinstance(t, ast.Compare) and len(t.ops) == 1 and len(t.comparators) == 1):
-        return False
-    if not ((isinstance(t.ops[0], ast.NotEq) and not neg) or (isinstance(t.ops[0], ast.Eq) and neg)):
-        return False
-    a, b = t.left, t.comparators[0]
-    ok = any((_hash_arg(x) is not None or (isinstance(x, ast.Name) and x.id in HASHED)) and ast.unparse(y) == dname for x, y in ((a, b), (b, a)))
-    return ok and _ends_in_raise(st.body)
-
-
-def _has_use(node):
-    for n in ast.walk(node):
-        if isinstance(n, ast.Call):
-            f = ast.unparse(n.func)
-            if f.endswith('.submit') or f.endswith('_write_chunk_ref'):
-                return True
-    return False
-
-
-def _leaves(body):
-    """the block cannot complete normally"""
-    return bool(body) and isinstance(body[-1], (ast.Raise, ast.Return, ast.Continue, ast.Break))
-
-
-def _guarantees(stmts, dname):
-    """every path that completes `stmts` normally has executed a guard"""
-    for st in stmts:
-        if _is_guard(st, dname):
-            return True
-        if isinstance(st, ast.If):
-            if (_guarantees(st.body, dname) or _leaves(st.body)) and (_guarantees(st.orelse, dname) or _leaves(st.orelse)) \
-                    and (_guarantees(st.body, dname) or _guarantees(st.orelse, dname)):
-                return True
-        elif isinstance(st, (ast.With, ast.AsyncWith)):
-            if _guarantees(st.body, dname):
-                return True
-        elif isinstance(st, ast.Try):
-            if _guarantees(st.finalbody, dname):
-                return True
-            if _guarantees(st.body + st.orelse, dname) and all(_leaves(h.body) or _guarantees(h.body, dname) for h in st.handlers):
-                return True
-    return False
-
-
-def _safe(stmts, dname):
-    """no hand-over to the writers is reachable in `stmts` before a guard has been executed"""
-    for st in stmts:
-        if _is_guard(st, dname):
-            return True
-        if isinstance(st, ast.If):
-            if _has_use(st.test) or not _safe(st.body, dname) or not _safe(st.orelse, dname):
-                return False
-        elif isinstance(st, (ast.With, ast.AsyncWith)):
-            if any(_has_use(i.context_expr) for i in st.items) or not _safe(st.body, dname):
-                return False
-        elif isinstance(st, ast.Try):
-            if not _safe(st.body + st.orelse, dname):
-                return False
-            if any(_has_use(h) for h in st.handlers):
-                return False
-            if _has_use(ast.Module(body=st.finalbody, type_ignores=[])) and not _safe(st.finalbody, dname):
-                return False
-        elif isinstance(st, (ast.For, ast.AsyncFor, ast.While)):
-            if not _safe(st.body, dname) or not _safe(st.orelse, dname):
-                return False
-        elif isinstance(st, (ast.FunctionDef, ast.AsyncFunctionDef, ast.ClassDef)):
-            if _has_use(st):
-                return False
-        elif _has_use(st):
-            return False
-        if _guarantees([st], dname):
-            return True
-    return True
+sys.path.insert(0, str(Path(__file__).resolve().parent.parent))
+import replicat_facts as rf  # noqa: E402
+import symflow_fmt as symflow  # noqa: E402
 
 
 def section(ctx):
-    rtree = ast.parse((ctx.REPO / 'replicat' / 'repository.py').read_text())
-    dl = ctx.find_func(rtree, 'Repository', 'restore', '_download_chunk')
-    dominates = False
-    if dl is None:
-        ctx.notes['restore.chunk_check_dominates'] = '_download_chunk not found'
-    else:
-        params = [a.arg for a in dl.args.args]
-        dname = params[0] if params else 'digest'
-        HASHED.clear()
-        for n in ast.walk(dl):
-            if isinstance(n, ast.Assign) and len(n.targets) == 1 and isinstance(n.targets[0], ast.Name) and _hash_arg(n.value) is not None:
-                HASHED.add(n.targets[0].id)
-        if not _has_use(dl):
-            ctx.notes['restore.chunk_check_dominates'] = 'no hand-over to the writers (`.submit` / `_write_chunk_ref`) found in _download_chunk'
-        elif not _safe(dl.body, dname):
-            ctx.notes['restore.chunk_check_dominates'] = ('the digest comparison of _download_chunk does not dominate the write: some path reaches the '
-                                                          'writers without `if hash_digest(…) != <expected digest>: raise`')
-        else:
-            dominates = True
-    ctx.emit('/-- on every path through `restore._download_chunk` a digest guard precedes the hand-over to the writers -/')
+    an = symflow.analyzer_for(ctx.REPO)
+    try:
+        ld = rf.chunk_loader(an)
+    except Exception as e:  # noqa: BLE001
+        ld = dict(dominates=False, why=f'analysis failed: {e!r}')
+    dominates = bool(ld.get('dominates'))
+    if not dominates:
+        ctx.notes['restore.chunk_check_dominates'] = ld.get('why') or ('the digest comparison of the chunk loader does not dominate the write: '
+                                                                        'some path reaches the writers without `HASH(bytes) == <expected digest>`')
+    ctx.emit('/-- on every path through the chunk loader of `restore` the digest comparison precedes the hand-over to the writers -/')
     ctx.emit(f'def chunkDigestCheckDominates : Bool := {"true" if dominates else "false"}')
